@@ -278,6 +278,11 @@ class Optic:
                 self.set_thickness(thicknesses[surf_idx] * scale_factor,
                                    surf_idx)
 
+        # Scale surface decentres
+        for surface in self.surface_group.surfaces[1:]:
+            surface.geometry.cs.x = surface.geometry.cs.x * scale_factor
+            surface.geometry.cs.y = surface.geometry.cs.y * scale_factor
+
         # Scale aperture, if aperture type is EPD
         if self.aperture.ap_type == 'EPD':
             self.aperture.value *= scale_factor
